@@ -402,6 +402,18 @@ fn cases(args: &Args, rng: &mut Rng) -> Vec<Case> {
         if !args.tier_thorough && (k as usize + rw / 1000) % 2 == 1 { continue; }
         v.push(c13_case(rw, b, 256 * 1024, 120, &[30_000], vec![Fault { side: 0, ctype: 254, ordinal: k + 2, action: Action::DropN(3) }], Some(0u32.wrapping_sub(k))));
     } }
+    // HEARTBEAT / HEARTBEAT-ACK on a checked wire (the default interval of 15 s outlives every run): size, CRC and tag
+    // rule for these two chunk types, and "silent apart from heartbeats"
+    {
+        let mut c = c13_case(32_768, 4, 65_536, 80, &[3000], vec![], None);
+        for e in c.cfg.iter_mut() { e.heartbeat_ms = 100; }
+        c.settle = Duration::from_millis(700);
+        v.push(c);
+        let mut c = c13_case(32_768, 4, 65_536, 80, &[3000], faults_parse("A.DATA.2.drop"), Some(0xFFFF_FFFD));
+        for e in c.cfg.iter_mut() { e.heartbeat_ms = 150; }
+        c.settle = Duration::from_millis(700);
+        v.push(c);
+    }
     // a partially reliable channel with loss: FORWARD-TSN is legitimate while something abandoned is unacknowledged,
     // and has to stop once the peer's cumulative ack has passed it (quiescence)
     for (f, mr) in [("A.TSN.1.dropn2", 0u16), ("A.TSN.2.dropn3+B.SACK.2.drop", 1), ("-", 0)] {
@@ -466,6 +478,10 @@ fn emit_run(run: &mut Run, c: &Case, o: &Outcome, replay: bool) {
             off += padded;
         }
     }
+    let hb = o.wire.iter().filter(|(_, p)| p.len() > 12 && (p[12] == 4 || p[12] == 5)).count();
+    if hb > 0 { run.count("runs_with_heartbeat"); }
+    if c.cfg[0].heartbeat_ms < 1000 && o.wire.iter().filter(|(_, p)| p.len() > 12 && p[12] == 4).count() == 0 { run.fail("coverage:no-heartbeat-on-the-wire", &text, "a run with a 100 ms heartbeat interval and 700 ms of idle time shows no HEARTBEAT"); }
+    if c.cfg[0].heartbeat_ms < 1000 && o.wire.iter().filter(|(_, p)| p.len() > 12 && p[12] == 5).count() == 0 { run.fail("coverage:no-heartbeat-ack-on-the-wire", &text, "HEARTBEATs are not answered"); }
     if o.traces[0].iter().any(|e| matches!(e, hook::Ev::Mark("t3", _))) { run.count("runs_with_t3"); }
     if o.traces[0].iter().any(|e| matches!(e, hook::Ev::Mark("tx_new", v) if v[3] == 1)) { run.count("runs_window_limited"); }
     if o.traces[0].iter().any(|e| matches!(e, hook::Ev::Mark("tx_new", v) if v[3] == 1 && v[0] == 0)) { run.count("runs_blocked_with_data_queued"); }
